@@ -1,6 +1,103 @@
-//! C14: which file does each resolver pick? (filled in below)
-use serde_json::{json, Value};
+//! C14: which files does each resolver pick for a project?  Observations only; the comparison is in lib/c14.py.
+//!
+//! - "cli": `incan::cli::commands::collect_modules(entry)` (what `incan --check/build/run` use)
+//! - "lsp": the language server's rule: `frontend::module::resolve_import_path` applied transitively, every
+//!   import resolved relative to the directory of the *importing* file (as `collect_dependency_modules` does)
+//! - "collector" / "resolver": the two library collectors in `frontend::module` / `frontend::resolver`
 
-pub fn resolve(_req: &Value) -> Value {
-    json!({"error": "not implemented"})
+use incan::frontend::ast::Declaration;
+use incan::frontend::module::resolve_import_path;
+use incan::frontend::{lexer, parser};
+use serde_json::{json, Value};
+use std::collections::BTreeSet;
+use std::path::{Path, PathBuf};
+
+fn marker_of(source: &str) -> Option<String> {
+    let key = "const MARK = \"";
+    let i = source.find(key)?;
+    let rest = &source[i + key.len()..];
+    let j = rest.find('"')?;
+    Some(rest[..j].to_string())
+}
+
+fn lsp_closure(entry: &Path) -> (Vec<Value>, BTreeSet<String>) {
+    let mut direct: Vec<Value> = Vec::new();
+    let mut seen: BTreeSet<PathBuf> = BTreeSet::new();
+    let mut markers: BTreeSet<String> = BTreeSet::new();
+    let mut stack: Vec<(PathBuf, bool)> = vec![(entry.to_path_buf(), true)];
+    while let Some((path, is_entry)) = stack.pop() {
+        let canonical = path.canonicalize().unwrap_or(path.clone());
+        if !seen.insert(canonical.clone()) {
+            continue;
+        }
+        let Ok(src) = std::fs::read_to_string(&canonical) else { continue };
+        if !is_entry {
+            if let Some(m) = marker_of(&src) {
+                markers.insert(m);
+            }
+        }
+        let Ok(toks) = lexer::lex(&src) else { continue };
+        let Ok(ast) = parser::parse(&toks) else { continue };
+        let base = canonical.parent().unwrap_or(Path::new(".")).to_path_buf();
+        for (k, decl) in ast.declarations.iter().enumerate() {
+            if let Declaration::Import(import) = &decl.node {
+                let r = resolve_import_path(&base, import);
+                if is_entry {
+                    let m = r.as_ref().and_then(|p| std::fs::read_to_string(p).ok()).and_then(|s| marker_of(&s));
+                    direct.push(json!({"decl": k, "marker": m}));
+                }
+                if let Some(p) = r {
+                    stack.push((p, false));
+                }
+            }
+        }
+    }
+    (direct, markers)
+}
+
+pub fn resolve(req: &Value) -> Value {
+    let entry = req["entry"].as_str().unwrap_or("");
+    let entry_path = Path::new(entry);
+    let r = std::panic::catch_unwind(std::panic::AssertUnwindSafe(|| {
+        // CLI collector
+        let cli = match incan::cli::commands::collect_modules(entry) {
+            Ok(mods) => {
+                let n = mods.len();
+                let deps: Vec<Value> = mods
+                    .iter()
+                    .take(n.saturating_sub(1))
+                    .map(|m| json!({"name": m.name, "segments": m.path_segments, "marker": marker_of(&m.source)}))
+                    .collect();
+                json!({"ok": true, "deps": deps})
+            }
+            Err(e) => json!({"ok": false, "error": format!("{:?}", e).chars().take(300).collect::<String>()}),
+        };
+        let (direct, lsp_markers) = lsp_closure(entry_path);
+        // frontend::module::ModuleCollector
+        let collector = {
+            let mut c = incan::frontend::module::ModuleCollector::new(entry_path);
+            match c.collect(entry_path) {
+                Ok(mods) => {
+                    let ms: BTreeSet<String> = mods.iter().filter_map(|m| marker_of(&m.source)).collect();
+                    json!({"ok": true, "markers": ms})
+                }
+                Err(e) => json!({"ok": false, "error": e.first().map(|x| x.message.clone())}),
+            }
+        };
+        let resolver = {
+            let mut rs = incan::frontend::resolver::ModuleResolver::new();
+            match rs.resolve(entry) {
+                Ok(mods) => {
+                    let ms: BTreeSet<String> = mods.iter().filter(|m| m.name != "main").filter_map(|m| marker_of(&m.source)).collect();
+                    json!({"ok": true, "markers": ms})
+                }
+                Err(e) => json!({"ok": false, "error": format!("{}", e).chars().take(200).collect::<String>()}),
+            }
+        };
+        json!({"cli": cli, "lsp": {"direct": direct, "markers": lsp_markers}, "collector": collector, "resolver": resolver})
+    }));
+    match r {
+        Ok(v) => v,
+        Err(p) => json!({"panic": crate::front::panic_msg(p)}),
+    }
 }
